@@ -11,7 +11,7 @@ kf["findings"] = [f for f in kf["findings"] if not (f["property"] == "C10" and f
 kf["findings"].append({
     "property": "C10", "status": "open", "defect": "D13",
     "signature": "D13-family:planner-search-not-exhaustive",
-    "what": "planner search is not exhaustive (one candidate per (start mode, current mode) irrespective of the phase inside a C40/Text/X12 triple or EDIFACT quad, phase-blind dominance rule): for some inputs a larger symbol is chosen than a standard-conformant encoding needs. Inputs outside the fixed corpus are attributed to this finding only by the mechanical test described in DESIGN.md (planner priced the plan it selected, encoder realised it, list lookup right).",
+    "what": "planner search is not exhaustive (one candidate per (start mode, current mode) irrespective of the phase inside a C40/Text/X12 triple or EDIFACT quad, phase-blind dominance rule): for some inputs a larger symbol is chosen than a standard-conformant encoding needs. Inputs outside the fixed corpus are attributed to this finding only by the mechanical test described in DESIGN.md (planner priced the plan it selected, encoder realised it, list lookup right, and the planner's own cost model - asked through hook H3 to price the witness's mode path and the single-mode alternatives - either cannot follow the path or prices it as fitting the smaller symbol).",
 })
 n = 0
 seen = set()
